@@ -2,7 +2,8 @@
 # usage: tools/confirm_seed.sh <prop> <a|b> "<pytest -k expr or test paths>"   -- confirm a seeded change in a scratch worktree and file it
 set -u
 P=$1; M=$2; TESTS=${3:-cubed/tests/runtime}
-SRC=/tmp/wt-out/$P/$M
+SRC=${4:-/tmp/wt-out/$P/$M}     # optional: source directory of the candidate
+SID=${5:-$P-$M}                 # optional: id under which it is filed (e.g. C01-c for a second-round seed)
 WT=/tmp/wt/confirm-$P-$M
 git -C /repo worktree add -q --detach $WT HEAD || exit 2
 cd $WT
@@ -14,7 +15,7 @@ TAIL=$(tail -1 /tmp/confirm-$P-$M.tests.log)
 cd /; git -C /repo worktree remove --force $WT
 echo "$P-$M demo clean rc=$RC_CLEAN mutated rc=$RC_MUT tests rc=$RC_T :: $TAIL"
 if [ $RC_CLEAN -eq 0 ] && [ $RC_MUT -ne 0 ] && [ $RC_T -eq 0 ]; then
-  D=/verif/seeded/$P-$M; mkdir -p $D
+  D=/verif/seeded/$SID; mkdir -p $D
   cp $SRC/patch.diff $D/patch.diff; cp $SRC/demo.py $D/demo.py; cp $SRC/notes.md $D/notes.md 2>/dev/null
   echo "{\"property\": \"$P\", \"variant\": \"$M\", \"confirmed\": {\"demo_rc_clean\": $RC_CLEAN, \"demo_rc_mutated\": $RC_MUT, \"tests\": \"$TESTS\", \"tests_tail\": \"$TAIL\"}}" > $D/confirm.json
   echo FILED $D
